@@ -45,6 +45,8 @@ func c02(c *q.Ctx) {
 		c.OnlyUnder(u, q.ToCall("UtxoVM.UpdateUtxoTotal"), []q.Cond{{Canon: "p1.Coinbase", Sense: true}}, "only coinbase outputs change the total supply")
 		c.ArgIs(u, "UtxoVM.UpdateUtxoTotal", 1, "*SetBytes(p1.TxOutputs[].Amount)*", 1, "the total shrinks by the amount of the output that is removed")
 	}
+	// the fee output is materialised for, and removed from, the proposer under the same key (a stale cache entry is a spendable phantom)
+	feeInverse(c)
 	// K3: who may change the total
 	callers := c.WhoCalls("UtxoVM.UpdateUtxoTotal", map[string]string{
 		st + "(*State).doTxInternal":   "play: + under tx.Coinbase",
